@@ -49,6 +49,9 @@ THEOREMS = ["JanetModel.Props.C03." + t for t in (
     "struct_by_lookups", "map_equiv_of_equal_lookups",
     # session 4b: traversal_next status numbers / branch structure regenerated
     "traversal_next_tie",
+    # session 4d: the probe loop of janet_symbol_gen terminates within cache_count + 1 probes (inc_gensym = +1 in base 62 on the
+    # regenerated digit transitions; pigeonhole on the live symbols); gensym_fresh / symcache_unique_gensym have no probe bound any more
+    "gensym_terminates",
 )]
 # which law of a symbol-cache scenario to report first (the most direct statement of the property comes first)
 SYM_LAW_ORDER = ["gensym-duplicates-live-symbol", "symbol-duplicate-live", "symbol-duplicate-after-collect", "compare-zero-iff-equals", "symbol-identity",
